@@ -10,6 +10,8 @@ from fractions import Fraction
 import numpy as np
 
 from . import runs as R
+import copy
+
 from .common import Slice, fit, fr, ind_tok, run_driver
 
 ENGINE_TOK = {"xsea": "ea", "xde": "de", "sea": "ea", "seax": "ea", "ga": "ea", "adapt": "ea", "mwea": "ea", "de": "de", "ded": "de", "shade": "shade", "cma": "cma", "cmaw": "cma", "cmas": "cma", "local": "local", "lhs": "lhs", "sobol": "sobol"}
@@ -555,7 +557,24 @@ def _refine_worker(args):
             return {"status": "env", "exc": type(ex).__name__}
         return {"status": "crash", "impl": f"run crashed: {type(ex).__name__}: {ex}", "tb": traceback.format_exc()[-800:]}
     sanity = [dict(v) for v in env_sanity(run) if pid is None or v["signature"].startswith(pid)]
-    return {"status": "ok", "lines": lines, "expect": expect, "kinds": kinds, "demes": list(run.order), "steps": run.steps,
+    untraced = None
+    if spec["seed"] % 3 == 0 and run.error is None:
+        # the run the traced run stands for, without the tracer (the configured objects themselves, not the tracer's
+        # pass-throughs around them): it must end in the same tree
+        try:
+            with run_limit():
+                tw = R.untraced_twin(copy.deepcopy(spec))
+            key = lambda sn: sorted((d["id"], d["active"], d["hib"], d["n_evals"], d["metaepochs"], tuple(d["digest"])) for d in sn["demes"])  # noqa: E731
+            a, b = key(run.snaps[-1]), key(tw)
+            if a != b:
+                first = next((x for x, y in zip(a, b) if x != y), (a + b)[-1] if len(a) != len(b) else None)
+                untraced = f"traced run ends with {len(a)} demes / untraced run of the same configuration with {len(b)}; first difference at deme {first[0] if first else '?'} (traced: active={first[1]}, hibernating={first[2]}, evaluations={first[3]}, metaepochs={first[4]})" if first else "different trees"
+        except Exception as ex:  # noqa: BLE001
+            from .common import is_env_crash
+
+            if not is_env_crash(ex) and not isinstance(ex, RunTimeout):
+                untraced = f"the untraced run raised {type(ex).__name__}: {ex}"
+    return {"status": "ok", "untraced": untraced, "lines": lines, "expect": expect, "kinds": kinds, "demes": list(run.order), "steps": run.steps,
             "nrounds": len(run.rounds), "stage_classes": [[st["cls"] for st in r["stages"]] for r in run.rounds], "sanity": sanity}
 
 
@@ -606,6 +625,9 @@ def refine_batch(ctx, n, salt=31, force=None, name="trace-refinement", pid=None)
                     x["describe"] = d
                     first = False
                     sl.disagreements.append(x)
+        if r.get("untraced"):
+            sl.count("diff:untraced")
+            sl.disagreements.append({"cat": "untraced", "spec": spec, "describe": d, "impl": r["untraced"], "model": "the tracer is transparent: observed and unobserved runs of one seeded configuration end in the same tree (the code treats its configuration objects differently when they are wrapped, or behaves differently when its runs are observed)"})
         for v in r["sanity"]:
             sl.violations.append(dict(v, replay={"spec": spec}))
         if sl.cases <= 2:
